@@ -322,7 +322,7 @@ func (x *Exec) doMakeInterface(fr *Frame, in *ssa.MakeInterface, reach *Term, st
 	switch kindOf(t) {
 	case KPtr, KMap, KFunc:
 		if v.LV != nil {
-			panic("executor-level pointer converted to interface")
+			v = x.reify(v) // an interior pointer becomes a pointer value (fptr) before it is boxed
 		}
 		r := v.term()
 		if kindOf(t) == KPtr && !(nonNil[r.S] || len(r.S) > 3 && r.S[:3] == "(+ ") {
